@@ -395,3 +395,315 @@ class ToFunsorToDataRoundTrip(Contract):
         idx = fresh_index(ctx.p, xs)
         cl.append(("round_trip_is_identity", Implies(in_range(idx, xs), back.get(tuple(idx[len(xs) - k:])) == ctx.x.get(idx))))
         return cl
+
+
+# ==================================================================================================
+# C01: eager tensor rules (layout of batch vs event dimensions)
+# ==================================================================================================
+OPF = z3.Function("binop", z3.IntSort(), z3.IntSort(), z3.IntSort())
+
+
+def bcast_pair(sa, sb):
+    """numpy broadcasting of two dims; returns (size, a_is_unit, b_is_unit); raises Declined where numpy raises"""
+    from .arrays import is_one, same_size
+
+    if same_size(sa, sb):
+        return sa, False, False
+    if is_one(sa):
+        return sb, True, False
+    if is_one(sb):
+        return sa, False, True
+    if truth(deep_eq(sa, sb)):
+        return sa, False, False
+    if truth(deep_eq(sa, 1)):
+        return sb, True, False
+    if truth(deep_eq(sb, 1)):
+        return sa, False, True
+    raise Declined("ValueError", "operands could not be broadcast together")
+
+
+class BinOpM:
+    """an elementwise binary op on arrays with numpy broadcasting (model of a ufunc)"""
+
+    name = "op"
+
+    def __call__(self, a, b):
+        a = a if isinstance(a, SArr) else SArr((), lambda idx, a=a: a)
+        b = b if isinstance(b, SArr) else SArr((), lambda idx, b=b: b)
+        n = max(len(a.shape), len(b.shape))
+        shape, ua, ub = [], [], []
+        for pos in range(n):
+            ia, ib = pos - (n - len(a.shape)), pos - (n - len(b.shape))
+            if ia < 0:
+                shape.append(b.shape[ib])
+            elif ib < 0:
+                shape.append(a.shape[ia])
+            else:
+                s, x, y = bcast_pair(a.shape[ia], b.shape[ib])
+                shape.append(s)
+                ua.append((ia, x))
+                ub.append((ib, y))
+        ua, ub = dict(ua), dict(ub)
+
+        def get(idx):
+            ia = tuple(0 if ua.get(k, False) else idx[k + n - len(a.shape)] for k in range(len(a.shape)))
+            ib = tuple(0 if ub.get(k, False) else idx[k + n - len(b.shape)] for k in range(len(b.shape)))
+            return SV(OPF(core._lift(a.get(ia)), core._lift(b.get(ib))))
+
+        return SArr(tuple(shape), get)
+
+
+def align_tensors_model(*args, **kwargs):
+    """callee contract of tensor.align_tensors / align_tensor (proved: AlignTensor): inputs = union of the operands' inputs in
+    first-occurrence order; each operand's data permuted/unit-padded to those inputs, every value staying with its name"""
+    if kwargs.get("expand", False):
+        raise Unsupported("expand=True")
+    inputs = OrderedDict()
+    for x in args:
+        inputs.update(x.inputs)
+    names = list(inputs)
+    out = []
+    for x in args:
+        old = list(x.inputs)
+        ev = x.data.shape[len(old):]
+        shape = tuple(x.inputs[n].dtype if n in x.inputs else 1 for n in names) + tuple(ev)
+
+        def get(idx, x=x, old=old):
+            return x.data.get(tuple(idx[names.index(o)] for o in old) + tuple(idx[len(names):]))
+
+        out.append(SArr(shape, get) if old != names or True else x.data)
+    return inputs, out
+
+
+def find_domain_model(op, *doms):
+    """callee contract of find_domain for the opaque op: real in, real out, shape irrelevant here (dtype only is used)"""
+    return MDom("real", ())
+
+
+class TShape:
+    pass
+
+
+def with_shape(t):
+    t.shape = t.output.shape
+    return t
+
+
+@register
+class EagerBinaryTensorTensor(Contract):
+    """eager_binary_tensor_tensor (generic pointwise op): result inputs = union of the operands' inputs (lhs order, then new rhs
+    names); for EVERY index, result.data[batch idx ++ event idx] == op(lhs at its own batch names and right-aligned event
+    index, rhs likewise) -- i.e. the unit padding for event-rank broadcasting is inserted BETWEEN batch and event dims, so a
+    batch dimension is never matched against an event dimension; event shapes broadcast as in numpy.
+    structure bound: <= 2 names per operand out of 3, event ranks <= 2; all sizes and contents symbolic."""
+
+    props = ("C01", "C06")
+    file = "funsor/tensor.py"
+    qualname = "eager_binary_tensor_tensor"
+    ordinal = 0
+    max_paths = 6000
+    mutants = (
+        ("padding on the far left", "shape = shape[:cut] + (1,) * (rhs_dim - lhs_dim) + shape[cut:]\n            lhs_data", "shape = (1,) * (rhs_dim - lhs_dim) + shape\n            lhs_data"),
+        ("cut computed from the other operand", "cut = len(rhs_data.shape) - rhs_dim", "cut = len(rhs_data.shape) - lhs_dim"),
+        ("operands swapped", "data = op(lhs_data, rhs_data)", "data = op(rhs_data, lhs_data)"),
+    )
+
+    def structures(self, tier):
+        pool = ["", "a", "b", "ab", "ba"] if tier == "quick" else ["", "a", "b", "c", "ab", "ba", "bc", "ca"]
+        er = 2
+        for ln in pool:
+            for rn in pool:
+                for le in range(er + 1):
+                    for re_ in range(er + 1):
+                        yield "lhs=%s/%d,rhs=%s/%d" % (ln or "-", le, rn or "-", re_), (ln, rn, le, re_)
+
+    def build(self, p, st):
+        ln, rn, le, re_ = st
+        lb = sizes(p, len(ln), "lb")
+        common = {}
+        lhs, lbs, les = mk_tensor(p, tuple(ln), le, "L")
+        # shared names must have equal sizes (well-typed operands)
+        rhs, rbs, res_ = mk_tensor(p, tuple(rn), re_, "R")
+        for n in rn:
+            if n in lbs:
+                p.assume(rbs[n] == lbs[n])
+        with_shape(lhs)
+        with_shape(rhs)
+        ns = dict(TENSOR_NS, find_domain=find_domain_model, align_tensors=align_tensors_model, len=len)
+        return Ctx(args=(BinOpM(), lhs, rhs), namespace=ns, lhs=lhs, rhs=rhs, lbs=lbs, rbs=rbs, les=les, res=res_, st=st, p=p)
+
+    def may_raise(self, ctx, etype):
+        return etype == "ValueError"  # event shapes not broadcastable: numpy raises, evaluation declines
+
+    def ensures(self, ctx, result):
+        ln, rn, le, re_ = ctx.st
+        if not isinstance(result, TensorM):
+            return [("returns_tensor", False)]
+        names = list(ln) + [n for n in rn if n not in ln]
+        bsz = [ctx.lbs[n] if n in ctx.lbs else ctx.rbs[n] for n in names]
+        cl = [("inputs_are_the_union_in_order", list(result.inputs) == names and And(*[deep_eq(result.inputs[n].dtype, s) for n, s in zip(names, bsz)]))]
+        ev = result.data.shape[len(names):]
+        ne = max(le, re_)
+        if len(result.data.shape) != len(names) + ne:
+            return cl + [("event_rank_is_max_of_operands", False)]
+        cl.append(("event_rank_is_max_of_operands", True))
+        idx = fresh_index(ctx.p, result.data.shape)
+        bidx, eidx = idx[: len(names)], idx[len(names):]
+
+        def operand(t, tn, te, esz):
+            b = tuple(bidx[names.index(n)] for n in tn)
+            e = []
+            for k in range(te):
+                pos = k + ne - te
+                # right-aligned event index; an operand dim of size 1 is read at 0 (numpy broadcasting)
+                e.append(If(deep_eq(esz[k], 1), 0, eidx[pos]))
+            return t.data.get(b + tuple(e))
+
+        exp = SV(OPF(core._lift(operand(ctx.lhs, ln, le, ctx.les)), core._lift(operand(ctx.rhs, rn, re_, ctx.res))))
+        cl.append(("each_element_is_op_of_the_operands_at_the_same_named_point", Implies(in_range(idx, result.data.shape), result.data.get(idx) == exp)))
+        # event shape = numpy broadcast of the event shapes
+        from .models import spec_broadcast
+
+        ok, bshape = spec_broadcast([ctx.les, ctx.res])
+        cl.append(("event_shape_is_numpy_broadcast", And(ok, deep_eq(tuple(ev), bshape))))
+        return cl
+
+
+REDF = "reduced"
+
+
+class NumericReduce:
+    """model of a numeric reduction op(data, dims): records which absolute dimensions were reduced"""
+
+    def __init__(self, name):
+        self.name = name
+
+    def __call__(self, data, dims=None, axis=None, keepdims=False):
+        if dims is None:
+            dims = axis
+        if isinstance(dims, int):
+            dims = (dims,)
+        if dims is None:
+            dims = tuple(range(len(data.shape)))
+        nd = len(data.shape)
+        absd = sorted(set(d % nd for d in dims)) if nd else []
+        if keepdims:
+            shape = tuple(1 if i in absd else s for i, s in enumerate(data.shape))
+        else:
+            shape = tuple(s for i, s in enumerate(data.shape) if i not in absd)
+        r = SArr(shape, lambda idx: (_ for _ in ()).throw(Unsupported("element of a reduction")))
+        r.reduced_from = (data, tuple(absd), keepdims, self.name)
+        return r
+
+
+@register
+class TensorEagerReduce(Contract):
+    """Tensor.eager_reduce(op, reduced_vars) for a numeric reduction op: the array is reduced over EXACTLY the dimensions
+    that carry the reduced names that are inputs of the tensor (names that are not inputs are ignored); the remaining inputs
+    keep their order; nothing to reduce returns self.  structure bound: <= 3 inputs (4), event rank <= 1."""
+
+    props = ("C01",)
+    file = "funsor/tensor.py"
+    qualname = "Tensor.eager_reduce"
+    total = True
+    mutants = (("positions of the kept names", "d for d, var in enumerate(self.inputs) if var in reduced_vars", "d for d, var in enumerate(self.inputs) if var not in reduced_vars"),)
+
+    def structures(self, tier):
+        q = 3 if tier == "quick" else 4
+        for n in range(0, q + 1):
+            names = NAMES[:n]
+            for r in range(0, n + 1):
+                for red in itertools.combinations(names, r):
+                    for foreign in (False, True):
+                        for e in (0, 1):
+                            yield "inputs=%s,reduced=%s%s,event=%d" % (names or "-", "".join(red) or "-", "+z" if foreign else "", e), (names, red, foreign, e)
+
+    def build(self, p, st):
+        names, red, foreign, e = st
+        x, bs, es = mk_tensor(p, tuple(names), e)
+        op = NumericReduce("sum")
+
+        class OpKey:
+            pass
+
+        opkey = OpKey()
+        ns = dict(TENSOR_NS, REDUCE_OP_TO_NUMERIC={opkey: op}, find_domain=find_domain_model, enumerate=enumerate)
+        rv = frozenset(red) | (frozenset(["z"]) if foreign else frozenset())
+        return Ctx(args=(x, opkey, rv), namespace=ns, x=x, st=st)
+
+    def ensures(self, ctx, result):
+        names, red, foreign, e = ctx.st
+        if not red:
+            return [("nothing_to_reduce_returns_self", result is ctx.x)]
+        if not isinstance(result, TensorM) or not hasattr(result.data, "reduced_from"):
+            return [("reduces_with_the_numeric_op", False)]
+        data, absd, keep, opn = result.data.reduced_from
+        exp_dims = tuple(i for i, n in enumerate(names) if n in red)
+        kept = [n for n in names if n not in red]
+        return [
+            ("reduces_exactly_the_dims_of_the_reduced_names", data is ctx.x.data and absd == exp_dims and not keep),
+            ("remaining_inputs_in_order", list(result.inputs) == kept and And(*[deep_eq(result.inputs[n], ctx.x.inputs[n]) for n in kept])),
+        ]
+
+
+@register
+class EagerReductionTensor(Contract):
+    """eager_reduction_tensor(op, arg) (output-shape reductions x.sum(axis, keepdims) ...): for every axis in
+    [-ndims, ndims) (or tuple / None) the reduction addresses the intended EVENT dimension -- absolute dimension
+    batch_rank + (axis mod ndims) -- never a batch dimension; inputs unchanged.
+    structure bound: batch rank <= 2, event rank <= 3, all axis values / pairs."""
+
+    props = ("C01", "C06")
+    file = "funsor/tensor.py"
+    qualname = "eager_reduction_tensor"
+    total = True
+    mutants = (("axis not shifted to the event block", "axis = axis % ndims - ndims", "axis = axis % ndims"), ("None reduces everything", "axis = tuple(range(-ndims, 0))", "axis = None"))
+
+    def structures(self, tier):
+        for b in (0, 1, 2):
+            for e in (0, 1, 2, 3):
+                axes = [None] + list(range(-e, e)) + [t for t in itertools.permutations(range(-e, e), 2) if t[0] % max(e, 1) != t[1] % max(e, 1)]
+                for ax in axes:
+                    for kd in (False, True):
+                        yield "batch=%d,event=%d,axis=%s,keepdims=%s" % (b, e, ax, kd), (b, e, ax, kd)
+
+    def build(self, p, st):
+        b, e, ax, kd = st
+        x, bs, es = mk_tensor(p, tuple(NAMES[:b]), e)
+        rec = []
+
+        class Op(NumericReduce):
+            defaults = {"axis": ax, "keepdims": kd}
+
+            def __call__(self, data, *a, **k):
+                if not a and not k:
+                    a = (ax,)
+                    k = {"keepdims": kd}  # op(data) applies the op's own defaults
+                r = NumericReduce.__call__(self, data, *a, **k)
+                rec.append(r)
+                return r
+
+        class OpsNS(OpsArrayNS):
+            @staticmethod
+            def unsqueeze(d, dim):
+                assert dim == -1
+                return SArr(tuple(d.shape) + (1,), lambda idx: d.get(idx[:-1]))
+
+        ns = dict(TENSOR_NS, ops=OpsNS, find_domain=find_domain_model, isinstance=core.sisinstance, range=range)
+        return Ctx(args=(Op("sum"), x), namespace=ns, x=x, st=st, rec=rec)
+
+    def ensures(self, ctx, result):
+        b, e, ax, kd = ctx.st
+        if not isinstance(result, TensorM) or len(ctx.rec) != 1:
+            return [("one_numeric_reduction", False)]
+        data, absd, keep, _ = ctx.rec[0].reduced_from
+        cl = [("inputs_unchanged", deep_eq(result.inputs, ctx.x.inputs))]
+        if e == 0:
+            # scalar output: reduces a freshly appended unit dim, leaving every value in place
+            return cl + [("scalar_output_reduces_only_an_appended_unit_dim", len(data.shape) == b + 1 and absd == (b,) and data.shape[-1] == 1)]
+        want = tuple(range(b, b + e)) if ax is None else tuple(sorted({b + (a % e) for a in ((ax,) if isinstance(ax, int) else ax)}))
+        if b == 0 and ax is None:
+            want = tuple(range(e))
+        cl.append(("reduces_exactly_the_intended_event_dims", data is ctx.x.data and absd == want))
+        cl.append(("keepdims_passed_through", keep == kd))
+        return cl
